@@ -70,6 +70,7 @@ def loop_word(facts, b, n=3):
     step = None
     init = None
     acc_local = None
+    idx_field = []
     for p in SymEx(b, havoc_loops=True, max_paths=5000).run():
         for e in p.calls():
             nm = e.name.split('::')[-1]
@@ -77,7 +78,18 @@ def loop_word(facts, b, n=3):
                 src = re.sub(r'#(?:i\d+:)?\d+\.\d+', '', show(e.args[0], -1000)).replace('&', '').replace('*', '')
             if nm == 'mul' and len(e.args) == 2 and p.end == 'backedge':
                 a = [strip(x) for x in e.args]
-                kinds = ['acc' if x[0] == 'loopvar' else ('x' if re.sub(r'#(?:i\d+:)?\d+\.\d+', '', show(x, -1000)).replace('&mut _', 'IT').startswith('next(') else '?') for x in a]
+                def kind_of(x):
+                    if x[0] == 'loopvar':
+                        return 'acc'
+                    tx = re.sub(r'&mut _\d+', 'IT', re.sub(r'#(?:i\d+:)?\d+\.\d+', '', show(x, -1000))).replace('&', '').replace('*', '')
+                    if tx.startswith('next('):
+                        return 'x'
+                    mi = re.match(r'index\((?:deref\(|as_slice\()?arg1\.(\w+)\)?, next\(IT\)\.Some\.0\)$', tx)
+                    if mi:
+                        idx_field.append(mi.group(1))
+                        return 'x'
+                    return '?'
+                kinds = [kind_of(x) for x in a]
                 if sorted(kinds) == ['acc', 'x']:
                     step = 'acc*x' if kinds[0] == 'acc' else 'x*acc'
                     acc_local = a[kinds.index('acc')][2]
@@ -87,10 +99,14 @@ def loop_word(facts, b, n=3):
             acc_local = p.ret[2]
     if src is None or step is None:
         return None
-    m = re.match(r'(rev\()?iter\((?:deref\(|as_slice\()?arg1\.(\w+)\)?\)\)?$', src)
-    if not m:
+    m = re.match(r'(rev\()?(?:iter\()?(?:deref\(|as_slice\()?arg1\.(\w+)\)*$', src)
+    mr = re.match(r'(rev\()?Range::Range\{start: 0, end: len\((?:deref\(|as_slice\()?arg1\.(\w+)\)?\)\}\)?$', src)
+    if m and not idx_field:
+        rev, field = bool(m.group(1)), m.group(2)
+    elif mr and idx_field and set(idx_field) == {mr.group(2)}:
+        rev, field = bool(mr.group(1)), mr.group(2)      # for k in 0..list.len() { .. list[k] .. }
+    else:
         return None
-    rev, field = bool(m.group(1)), m.group(2)
     word = ['init']
     order = list(range(n))
     if rev:
@@ -143,7 +159,7 @@ def run(facts, rep):
                     continue
                 # shortcut path
                 s = sk(r).replace('&', '').replace('*', '')
-                if lw_cache.setdefault(fn, loop_word(facts, b[fn])) is not None and re.match(r'(id\(|mul\()', s):
+                if lw_cache.setdefault(fn, loop_word(facts, b[fn])) is not None and re.match(r'(id\(|mul\(|arg2$|clone\(arg2\)$)', s):
                     continue          # results of the accumulation loop after 0 / 1 iterations (read by loop_word)
                 m = re.match(r'(?:clone\()?index\(arg1\.(\w+), (\d+)\)\)?$', s) or re.match(r'(?:clone\()?(?:as_slice\()?arg1\.(\w+)\)?\[(\d+)\]\)?$', s)
                 inst = 'Trans::%s|single-factor shortcut uses the list it tested' % fn
